@@ -103,6 +103,11 @@ def run(prog: Program, L: Ledger) -> None:
         else:
             var = gen.target.elts[0].id
             iv_keys = [f"{gen.target.elts[1].id}.interval", f"self.moves[{var}].interval"]
+        # a predicate moved into a method of the stored entry (`move_storage.is_due(step)`) is read through
+        from ..normalize import expand_expression_methods
+
+        storage_cls = prog.cls("MoveStorage")
+        cond = expand_expression_methods(prog, storage_cls, cond, {k.rsplit(".", 1)[0] for k in iv_keys})
         bad = None
         # other attributes of the stored entry that the filter consults are free: the predicate must
         # equal `step % interval == 0` for every value they can take
